@@ -702,8 +702,15 @@ func c06FullDiff(p *Prog, r *Report) {
 //     address lacks it, not only for entities created by this announcement: the entity known before discovery
 //     (entity [0]) is exactly the one that lacks it.
 func c06Reannounce(p *Prog, r *Report, eri *types.Interface) {
-	r.Rule("R13", "a re-announced entity is rebuilt whenever its announced description is stored: RemoveAllFeatures is reached under exactly the conditions under which SetDescription of the same entity is")
-	r.Rule("R14", "the device address learned from an announcement is given to every announced entity that lacks it: UpdateDeviceAddress is not confined to the branch that creates a new entity")
+	reannounceRules(p, r, eri, "R13", "R14")
+}
+
+// reannounceRules: ruleW (the rebuild) may be empty when only the device-address rule is shared (C08).
+func reannounceRules(p *Prog, r *Report, eri *types.Interface, ruleW, ruleA string) {
+	if ruleW != "" {
+		r.Rule(ruleW, "a re-announced entity is rebuilt whenever its announced description is stored: RemoveAllFeatures is reached under exactly the conditions under which SetDescription of the same entity is")
+	}
+	r.Rule(ruleA, "the device address learned from an announcement is given to every announced entity that lacks it: UpdateDeviceAddress is not confined to the branch that creates a new entity")
 	nW, nU := 0, 0
 	for _, fn0 := range p.ScopeRoots("spine") {
 		fn := fn0
@@ -724,6 +731,9 @@ func c06Reannounce(p *Prog, r *Report, eri *types.Interface) {
 				}
 			})
 			for i, w := range wipes {
+				if ruleW == "" {
+					break
+				}
 				var sd *ssa.Call
 				for _, d := range descs {
 					if substParam(callRecv(&d.Call)) == substParam(callRecv(&w.Call)) {
@@ -753,7 +763,7 @@ func c06Reannounce(p *Prog, r *Report, eri *types.Interface) {
 						extra = append(extra, "a path from storing the description to the next announced entity bypasses the wipe")
 					}
 				}
-				r.Check("R13", fmt.Sprintf("%s|rebuild#%d", FnName(fn), i+1), len(extra) == 0, p.InstrPos(w), fmt.Sprintf("conditions on the wipe that are not conditions on storing the description: %v", extra))
+				r.Check(ruleW, fmt.Sprintf("%s|rebuild#%d", FnName(fn), i+1), len(extra) == 0, p.InstrPos(w), fmt.Sprintf("conditions on the wipe that are not conditions on storing the description: %v", extra))
 			}
 			for i, u := range upds {
 				nU++
@@ -771,10 +781,12 @@ func c06Reannounce(p *Prog, r *Report, eri *types.Interface) {
 						bad = append(bad, fmt.Sprintf("%s == nil at %s", Path(x), p.InstrPos(g.If)))
 					}
 				}
-				r.Check("R14", fmt.Sprintf("%s|device-address#%d", FnName(fn), i+1), len(bad) == 0, p.InstrPos(u), fmt.Sprintf("the update is reached only when the entity was not known before: %v", bad))
+				r.Check(ruleA, fmt.Sprintf("%s|device-address#%d", FnName(fn), i+1), len(bad) == 0, p.InstrPos(u), fmt.Sprintf("the update is reached only when the entity was not known before: %v", bad))
 			}
 		})
 	}
-	r.Floor("R13", "feature rebuilds next to a stored description", nW, 1)
-	r.Floor("R14", "device address updates", nU, 1)
+	if ruleW != "" {
+		r.Floor(ruleW, "feature rebuilds next to a stored description", nW, 1)
+	}
+	r.Floor(ruleA, "device address updates", nU, 1)
 }
